@@ -140,7 +140,10 @@ CHECKS["C08"] = dict(
           "sum to at most dist2(W0, Y), some sweep among the first n moves by at most dist2(W0, Y)/n, and a sweep with "
           "zero movement yields the nearest feasible kernel. Only the existence of the limit of the iterates is still "
           "cited; it is tested against an independent exact projection (NNLS) and by 300-sweep convergence cases for "
-          "all eight families."),
+          "all eight families. PWL calibrator, monotonicity with bounds (all BOUND/CLAMPED variants): both group maps "
+          "are proved exact Euclidean projections for ALL inputs, one loop body is one abstract sweep, a fixpoint of "
+          "the loop is the nearest feasible column, Fejer bound / summable movement / stalling hold, and a converged "
+          "state is returned unchanged by the finalisation; tested against an LDP/NNLS projection."),
     note="Models: Model/LatticeDykstra.v, Model/PWLProject.v. Asymptotic clauses (violation -> 0, closeness at "
          "finite n) are differential testing, labelled as such in the evidence.",
     technique="Coq proof (Dykstra fixpoint theory, half-space projections) + in-Coq correspondence + NNLS oracle test",
